@@ -205,7 +205,9 @@ class NamedObject:
       # can be infinitely iterated and cause infinite loop. Special
       # casing Wire will be a mess around everywhere.
 
-      elif isinstance( obj, list ) and obj and isinstance( obj[0], (NamedObject, list) ):
+      # (a list may have holes: [ None, Foo(), None, Foo() ])
+      elif isinstance( obj, list ) and \
+           isinstance( next( ( x for x in obj if x is not None ), None ), (NamedObject, list) ):
         fields = sd.NamedObject_fields
         if name in fields:
           # The same list again ( s.x += [ ... ] ): name the new elements
@@ -267,6 +269,30 @@ class NamedObject:
             Q.extend( (v, indices+(i,)) for i, v in enumerate(u) )
 
     super().__setattr__( name, obj )
+
+  def _name_late_list_elements( s ):
+    """ The hook above names the elements a list has when it is assigned to
+    an attribute. Elements that were put into the list afterwards
+    ( s.x = []; s.x.append( Wire(8) ); s.g[i] += [ ... ] ) are named here,
+    after the whole hierarchy has been constructed. """
+    stack = [ s ]
+    while stack:
+      u = stack.pop()
+      for name, obj in list( u.__dict__.items() ):
+        if isinstance( name, str ) and name[0] != '_' and isinstance( obj, list ):
+          NamedObject._elaborate_stack.append( u )
+          u.__setattr_for_elaborate__( name, obj )
+          NamedObject._elaborate_stack.pop()
+      for name, obj in u.__dict__.items():
+        if isinstance( name, str ) and name[0] != '_':
+          Q = [ obj ]
+          while Q:
+            x = Q.pop()
+            if isinstance( x, list ):
+              Q.extend( x )
+            elif isinstance( x, NamedObject ) and x._dsl.parent_obj is u and \
+                 hasattr( x._dsl, "NamedObject_fields" ): # named by the hook
+              stack.append( x )
 
   def _collect_all_single( s, filt=lambda x: isinstance( x, NamedObject ) ):
     ret = set()
@@ -394,6 +420,7 @@ class NamedObject:
 
     try:
       s._construct()
+      s._name_late_list_elements()
     except Exception:
       # re-raise here after deleting __setattr__
       del NamedObject.__setattr__ # not harming the rest of execution
